@@ -997,6 +997,12 @@ class CallMixin:
                 atom = (name, s.key(), _deep(args[0]))
                 self.run.atom_info[atom] = {"op": name, "recv": s, "arg": args[0]}
                 return SBool(atom)
+            if name in ("islower", "isupper", "isalpha", "isalnum", "isascii", "isidentifier", "istitle") and not args and not kwargs:
+                # a predicate of the characters of an unknown string: either answer (the receiver is kept for clients that
+                # evaluate the path on sample strings)
+                atom = (name, s.key())
+                self.run.atom_info[atom] = {"op": name, "recv": s, "arg": None}
+                return SBool(atom)
             if name in _PURE_STR_METHODS:
                 if name in ("split", "rsplit", "splitlines", "partition", "rpartition"):
                     o = SOpaque((f"str.{name}", repr(s)) + tuple(short(a) for a in args), {"LIST"})
